@@ -12,6 +12,37 @@ from .source import ExtractError, mask, match_close
 _IDENT = r'[A-Za-z_][A-Za-z0-9_]*'
 
 
+def r9_float_args(text, log):
+    """`X.mul_f32(E)` -> `X.mul_f32(vx_f32_<slug of E>())`: the float expression is kept symbolic by its text
+    (no float theory in the installed Verus/Z3). Declarations for every slug are appended to the unit."""
+    n = 0
+    pos = 0
+    while True:
+        m = mask(text)
+        j = m.find('.mul_f32(', pos)
+        if j < 0:
+            break
+        p = j + len('.mul_f32(') - 1
+        q = match_close(m, p)
+        expr = ' '.join(text[p + 1:q].split())
+        pos = q
+        if expr.startswith('vx_f32_'):
+            continue
+        slug = expr.replace(' as ', '_as_').replace('-', '_sub_').replace('+', '_add_').replace('*', '_mul_').replace('/', '_div_')
+        slug = re.sub(r'[^A-Za-z0-9_]', '_', slug.replace(' ', ''))
+        slug = re.sub(r'_+', '_', slug).strip('_')
+        decl = ('pub uninterp spec fn vxs_f32_%s() -> f32;   // float expression `%s` kept symbolic (R9)\n'
+                '#[verifier::external_body]\npub fn vx_f32_%s() -> (r: f32) ensures r == vxs_f32_%s() { unimplemented!() }'
+                % (slug, expr, slug, slug))
+        if decl not in log.setdefault('decls', []):
+            log['decls'].append(decl)
+        new = 'vx_f32_%s()' % slug
+        text = text[:p + 1] + new + text[q:]
+        pos = p + 1 + len(new)
+        n += 1
+    return text, n
+
+
 def apply(text, rules, what, log):
     text, n = r1_format(text)
     if n:
@@ -23,6 +54,12 @@ def apply(text, rules, what, log):
     text, n = r0_vis(text)
     text, n = r0_pubfields(text)
     for r in rules:
+        if r == 'R9':
+            text, n = r9_float_args(text, log)
+            if n == 0:
+                raise ExtractError('rule R9 enabled for %s but it matched nothing (anchor lost)' % what)
+            log['rewrites'].append({'rule': 'R9', 'item': what, 'count': n})
+            continue
         fn = RULES.get(r)
         if fn is None:
             raise ExtractError('unknown rewrite rule %s for %s' % (r, what))
